@@ -20,6 +20,7 @@ package cluster
 //    member able to acquire at quiescence.
 
 import (
+	"context"
 	"fmt"
 	"runtime"
 	"sort"
@@ -179,6 +180,12 @@ func TestVerifC18Mutex(t *testing.T) {
 		return fmt.Sprintf("%x", int64(l))
 	}
 
+	var oddCases []string
+	defer func() {
+		if len(oddCases) > 0 && !t.Failed() {
+			t.Fatalf("VF-INCONCLUSIVE %d case(s) saw Lock() errors the statement does not cover, e.g. %s", len(oddCases), oddCases[0])
+		}
+	}()
 	rapid.Check(t, func(rt *rapid.T) {
 		leakKnown := vf.HasKnown(vfLeakKey)
 		c := vfGenMutexCase(rt, !leakKnown)
@@ -297,6 +304,7 @@ func TestVerifC18Mutex(t *testing.T) {
 			failedBy     = map[int]int{}
 			unlockErr    error
 			inconclusive string
+			oddErr       string
 		)
 		var wg sync.WaitGroup
 		start := make(chan struct{})
@@ -323,7 +331,13 @@ func TestVerifC18Mutex(t *testing.T) {
 						mu.Lock()
 						failedBy[sc.Member]++
 						mu.Unlock()
-						if m.(*mutex).timeout >= 5*time.Second {
+						if err != context.DeadlineExceeded && !strings.Contains(err.Error(), "deadline") {
+							// not a timeout (e.g. "session expired" on a live session): the statement does
+							// not forbid it; remembered, reported as inconclusive at the end of the run
+							mu.Lock()
+							oddErr = err.Error()
+							mu.Unlock()
+						} else if m.(*mutex).timeout >= 5*time.Second {
 							// a generous deadline expired: something is stuck; stop the case
 							atomic.StoreInt32(&abort, 1)
 						}
@@ -467,8 +481,16 @@ func TestVerifC18Mutex(t *testing.T) {
 				return
 			}
 		}
+		if oddErr != "" {
+			vf.Class("ambiguous-lock-error-other-than-timeout")
+			oddCases = append(oddCases, oddErr)
+		}
 		if atomic.LoadInt32(&abort) != 0 {
-			rt.Fatalf("VF-INCONCLUSIVE a Lock() with a generous deadline failed although nothing is left in the store\n%s", c)
+			// something was stuck without leaving a trace in the store: not a verdict; the run goes on
+			// and is reported as inconclusive at the end unless a violation shows up
+			vf.Class("ambiguous-generous-deadline-expired")
+			oddCases = append(oddCases, "a Lock() with a 10s deadline failed although nothing is left in the store")
+			return
 		}
 		// at quiescence every participating member can acquire
 		for _, mi := range c.Members {
